@@ -588,6 +588,144 @@ def run_clip(case, thorough=False):
 
 
 # ---------------------------------------------------------------------------------------------
+# slices: ONE axis with many chunks - size RELATIONS between the chunks of an axis
+#
+# The square of compositions above stops at N <= 6 (7) per axis; there a chunking cannot be uneven and still share
+# prefix sums / mean / first-last sizes with an even tiling (that needs >= 4 chunks and N >= 7).  The axes are
+# independent in the code, so the long chunkings are enumerated along one axis at a time (both axis orders)
+# against one or two short chunkings on the other axis.
+# ---------------------------------------------------------------------------------------------
+REL_ALPHABETS = (((1, 2, 3), 5), ((2, 8, 14), 5), ((0, 10, 20), 7))  # ({s-d, s, s+d}, extra ragged last chunk)
+PFX_SG = ((2, 1), (2, 2), (3, 1), (3, 2), (3, 3), (8, 1), (8, 7), (8, 8))  # (first size s, deviation g)
+PFX_SG_Q8 = ((3, 1), (8, 7))  # quick, 8 chunks
+
+
+def rel_products(nmin, nmax, alphabets=REL_ALPHABETS):
+    """EVERY chunk tuple of length n over a three-letter alphabet {s-d, s, s+d} (last chunk: also one ragged value):
+    holds every equal-mean / first==last / first==second / sorted / all-but-one / prefix-on-even-grid pattern."""
+    for alpha, extra in alphabets:
+        for n in range(nmin, nmax + 1):
+            for head in itertools.product(alpha, repeat=n - 1):
+                for last in alpha + (extra,):
+                    yield head + (last,)
+
+
+def rel_prefix_subsets(nmin, nmax, sg=PFX_SG):
+    """For every subset K of the positions 2..n: a chunking whose prefix sum cum[k] equals k * (first size) exactly
+    for k in K (and k = 1), off by -g / +g / alternately +g,-g per run elsewhere; g == s gives zero-length chunks."""
+    for n in range(nmin, nmax + 1):
+        for s, g in sg:
+            for mask in range(1 << (n - 1)):
+                on = [True, True] + [bool(mask >> (k - 2) & 1) for k in range(2, n + 1)]  # on[k]: cum[k] == k*s
+                for pat in ("-", "+", "alt"):
+                    dev, sign, prev_on = [0] * (n + 1), -1, True
+                    for k in range(2, n + 1):
+                        if on[k]:
+                            prev_on = True
+                            continue
+                        if prev_on and pat == "alt":
+                            sign = -sign
+                        prev_on = False
+                        dev[k] = g * (sign if pat == "alt" else (-1 if pat == "-" else 1))
+                    ch = tuple(s + dev[k + 1] - dev[k] for k in range(n))
+                    if min(ch) >= 0:
+                        yield ch
+
+
+def rel_shapes(nmin, nmax):
+    """all-equal-but-one at each position; strictly increasing / decreasing; first == last around a different
+    interior (flat, rising, mountain)."""
+    for n in range(nmin, nmax + 1):
+        for s in (1, 2, 3, 5, 8, 10):
+            for p in range(n):
+                for v in sorted({0, 1, s - 1, s + 1, 2 * s, 2 * s + 1, 20} - {s}):
+                    yield tuple(v if k == p else s for k in range(n))
+        for a in (1, 2, 3, 4):
+            for d in (1, 2):
+                up = tuple(a + d * k for k in range(n))
+                yield up
+                yield up[::-1]
+                mid = tuple(a + d * min(k, n - 1 - k) for k in range(n))  # mountain: first == last, palindrome
+                yield mid
+                yield tuple(a + d * (n // 2) - (c - a) for c in mid)  # valley
+        for s in (1, 2, 3, 5, 8):
+            for t in (1, 2, 3, 5, 8):
+                if s != t:
+                    yield (s,) + (t,) * (n - 2) + (s,)
+            yield (s,) + tuple(s + k for k in range(1, n - 1)) + (s,)
+
+
+def gen_axis(tier, heavy):
+    """heavy: the set given to the crop / clip oracles (quick: reduced lengths), else the set for the index oracle."""
+    def gen():
+        q = tier == "quick"
+        nc = 6 if q else 7  # compositions of N <= nc are in the square above
+        nmax = 9 if q else 10
+        seen = set()
+
+        def both(ch, others):
+            for o in others:
+                for case in (("V", ch, o), ("V", o, ch)):
+                    if case not in seen:
+                        seen.add(case)
+                        yield case
+
+        for N in range(nc + 1, nmax + 1):
+            for ch in comps(N):
+                yield from both(ch, ((1,),) if heavy else ((1,), (2, 1, 3)))
+        chain = itertools.chain
+        if heavy and q:
+            fams = (rel_products(4, 4), rel_prefix_subsets(5, 5), rel_shapes(5, 5))
+        elif heavy:
+            fams = (rel_products(4, 6), rel_prefix_subsets(5, 8), rel_shapes(5, 8))
+        elif q:
+            fams = (chain(rel_products(4, 5), rel_products(6, 6, REL_ALPHABETS[:1])),
+                    chain(rel_prefix_subsets(5, 7), rel_prefix_subsets(8, 8, PFX_SG_Q8)), rel_shapes(5, 8))
+        else:
+            fams = (rel_products(4, 7), rel_prefix_subsets(5, 8), rel_shapes(5, 8))
+        for fam in fams:
+            for ch in fam:
+                if sum(ch) > 0:
+                    yield from both(ch, ((1,),))
+
+    return gen
+
+
+def rel_label(ch):
+    """relation of a chunk tuple to the even tiling by its first size (pure arithmetic): names the class exercised."""
+    n, o, s = len(ch), cum(ch), ch[0]
+    if len(set(ch)) == 1:
+        return "even"
+    if len(set(ch[:-1])) == 1:
+        return "even-but-last"
+    tags = []
+    if o[n - 1] == (n - 1) * s:
+        tags.append("last-tile-starts-on-even-grid")
+    elif any(o[k] == k * s for k in range(3, n - 1)):
+        tags.append("a-prefix-ends-on-even-grid")
+    if o[n] == n * s:
+        tags.append("mean=first")
+    if ch[0] == ch[-1]:
+        tags.append("first=last")
+    if all(a < b for a, b in zip(ch, ch[1:])) or all(a > b for a, b in zip(ch, ch[1:])):
+        tags.append("monotone")
+    if 0 in ch:
+        tags.append("zero-chunk")
+    return "+".join(tags) or "unrelated"
+
+
+def axis_run(run):
+    def f(case):
+        r = run(case)
+        _, chy, chx = case
+        rows = len(chy) >= len(chx)
+        r.outcome = f"{r.outcome}:{'rows' if rows else 'cols'}:{rel_label(chy if rows else chx)}"
+        return r
+
+    return f
+
+
+# ---------------------------------------------------------------------------------------------
 # slice: GeoboxTiles over dyadic GeoBoxes
 # ---------------------------------------------------------------------------------------------
 AFFINES = {
@@ -1728,6 +1866,15 @@ def slices(tier):
                  "same tilings: every non-empty block of tiles under every slice spelling; crop vs fresh tiling"),
         e1.Slice("tiling-clip", tl, clip_,
                  "same tilings: clip_tiles over every pair of tile indices (thorough: both listing orders)"),
+        e1.Slice("tiling-axis-index", gen_axis(tier, False), axis_run(run_index),
+                 "VariableSizedTiles with a long chunking on ONE axis (both axis orders): every composition of "
+                 "nc < N <= 9 (10); every tuple of length 4..6 (7) over {s-d, s, s+d}; 5..8 chunks whose prefix sums "
+                 "meet the even grid exactly on each subset of positions; all-but-one / monotone / first==last "
+                 "shapes: every tile, painted partition, tile_shape, chunks, locate for every pixel"),
+        e1.Slice("tiling-axis-crop", gen_axis(tier, True), axis_run(crop_),
+                 "same one-axis chunkings (quick: shorter families): every block under every spelling, crop vs fresh"),
+        e1.Slice("tiling-axis-clip", gen_axis(tier, True), axis_run(clip_),
+                 "same one-axis chunkings (quick: shorter families): clip_tiles over every pair of tile indices"),
         e1.Slice("geobox-tiles", gen_gbt(tier), gbt_,
                  "GeoboxTiles over dyadic GeoBoxes: tile geoboxes, chunk_shape, crop[...], clip(pairs)"),
         e1.Slice("asm-geometry", gen_asm_geom(tier), run_asm_geom,
@@ -1761,6 +1908,17 @@ def main(ctx):
     ctx.bounds = {
         "Tiles": "base (H,W) in {1..9}^2, tile (h,w) in {1..10}^2" if q else "base {1..11}^2, tile {1..12}^2",
         "VariableSizedTiles": f"every composition of N <= {6 if q else 7} per axis",
+        "VariableSizedTiles_one_axis": (
+            f"long chunking on one axis, (1,) on the other, both axis orders: every composition of "
+            f"{7 if q else 8} <= N <= {9 if q else 10} (index oracle: also against (2,1,3)); every tuple of length "
+            f"{'4..5 over each of' if q else '4..7 over each of'} {[a for a, _ in REL_ALPHABETS]} with the last chunk "
+            f"also {[e for _, e in REL_ALPHABETS]}" + (" (length 6 over (1,2,3))" if q else "") +
+            f"; for (first size s, deviation g) in {list(PFX_SG)} and every subset K of positions 2..n, n = 5..{7 if q else 8}"
+            + (f" (n = 8: {list(PFX_SG_Q8)})" if q else "") + ": the chunking whose prefix sums equal k*s exactly on K, "
+            "off by -g / +g / alternating elsewhere (g == s: zero-length chunks); 5..8 chunks all-equal-but-one "
+            "(each position, sizes 0..20), arithmetic increasing / decreasing / mountain / valley, first == last. "
+            "crop / clip oracles: the compositions, tuples of length 4" + ("" if q else "..6") + ", prefix subsets n = 5"
+            + ("" if q else "..8") + ", shapes n = 5" + ("" if q else "..8")),
         "tile_index": "every (r,c), negative spellings, Index2d, one step out of range",
         "tile_blocks": "every non-empty a:b x c:d; every equivalent spelling per axis (a:b, :b, a:, :, negative "
                        "bounds, ints a / a-n for single tiles) for region lookup AND crop: full product on both axes "
